@@ -721,24 +721,37 @@ TARGETS = {
                                 'Ok (C05_Model.eager_range bits (if ybr then R*C*2 else R*C*spp) i)'),
     'slice_indices/C03': dict(fn='standardize_slice_indices', statement=
                               'forall s e n ai, t_standardize_slice_indices s e n ai = C03_Model.std_slice s e n ai'),
-    'row_column_indices/C03': dict(fn='standardize_row_column_indices', statement=
+    'row_column_indices/C03': dict(fn='standardize_row_column_indices', pre=['TInt_Spec_rc'], statement=
                                    'forall rs re cs ce R C ai oi, t_standardize_row_column_indices rs re cs ce R C ai oi = '
                                    'C03_Model.std_rc rs re cs ce R C ai oi'),
-    'row_column_indices/C04': dict(fn='standardize_row_column_indices', statement=
+    'row_column_indices/C04': dict(fn='standardize_row_column_indices', pre=['TInt_Spec_rc'], statement=
                                    'forall rs re cs ce R C ai oi, t_standardize_row_column_indices rs re cs ce R C ai oi = '
                                    'C04_Model.standardize_rc_out ai oi rs re cs ce R C'),
+    'getitem_check_slice/C03': dict(fn='getitem_check_slice', statement=
+                                    'forall a b n, t_getitem_check_slice a n b = '
+                                    'if C03_Model.check_slice a b n then Ok tt else Err "ValueError"'),
+    'getitem_size/C03': dict(fn='getitem_size', statement=
+                             "forall a b n, let '(f, l, st) := slice_indices a b 1 n in "
+                             'bind (t_getitem_size f l st) (fun sz => Ok (f, sz)) = '
+                             'match C03_Model.slice_first_size a b n with Some p => Ok p | None => Err "IndexError" end'),
     'tile_pixel_matrix/C12': dict(fn='tile_pixel_matrix', statement=
                                   'forall R C th tw, 0 < th -> 0 < tw -> t_tile_pixel_matrix R C th tw = '
-                                  'Ok (C12_Model.tile_pixel_matrix R C th tw)   (and ZeroDivisionError when th = 0 or tw = 0)'),
+                                  'Ok (C12_Model.tile_pixel_matrix R C th tw);  th = 0 \\/ tw = 0 -> ... = Err "ZeroDivisionError"  '
+                                  '(int(np.ceil(a / b)) read as exact ceiling: trusted float step)'),
     'unsigned_dtype/C02': dict(fn='get_unsigned_dtype', statement=
-                               'forall m, t_get_unsigned_dtype m = Ok w  <->  C02_Model.unsigned_dtype m = DU w   '
+                               'forall m, bind (t_get_unsigned_dtype m) (fun w => Ok (DU w)) = Ok (C02_Model.unsigned_dtype m)   '
                                '(np.dtype(np.uintW) rendered as W)'),
     'unsigned_dtype/C01': dict(fn='get_unsigned_dtype', statement=
-                               'forall c, ty c = LABELMAP -> t_get_unsigned_dtype (maxl (segs c)) = Ok (C01_Model.bits_alloc c) '
-                               'on 0 <= max < 65536 (the constructor refuses larger labelmaps)'),
-    'getitem_check_int/C08': dict(fn='getitem_check_int', statement='see coq/templates/TInt_Eq_getitem_check_int_C08.v'),
-    'getitem_check_slice/C08': dict(fn='getitem_check_slice', statement='see coq/templates/TInt_Eq_getitem_check_slice_C08.v'),
-    'getitem_size/C08': dict(fn='getitem_size', statement='see coq/templates/TInt_Eq_getitem_size_C08.v'),
+                               'forall c, ty c = LABELMAP -> maxl (segs c) < 65536 -> t_get_unsigned_dtype (maxl (segs c)) = '
+                               'Ok (C01_Model.bits_alloc c);  forall m, 65536 <= m -> t_get_unsigned_dtype m = Ok 32'),
+    'getitem_check_int/C08': dict(fn='getitem_check_int', statement=
+                                  'forall v n, t_getitem_check_int v n = bind (C08_Model.check_item n (IInt v)) (fun _ => Ok tt)'),
+    'getitem_check_slice/C08': dict(fn='getitem_check_slice', statement=
+                                    'forall a b s n, t_getitem_check_slice a n b = '
+                                    'bind (C08_Model.check_item n (ISlc a b s)) (fun _ => Ok tt)'),
+    'getitem_size/C08': dict(fn='getitem_size', statement=
+                             'forall f l st, st <> 0 -> t_getitem_size f l st = '
+                             'match PySlice.hd_size f l st with Some sz => Ok sz | None => Err "IndexError" end'),
 }
 FOR = {}
 for _k in TARGETS:
@@ -823,30 +836,47 @@ def obligations(work, keys):
     if rc != 0:
         return [{'name': f'T-int {k}', 'status': 'broken: TInt_Gen.v: ' + _tail(log)} for k in keys]
 
-    def build_eq(k):
-        f = TARGETS[k]['fn']
-        if gen_status[f] is not None:
-            return k, gen_status[f]
-        tp = template_path(k)
+    def check_file(tp, what):
+        """copy a static proof file into work, compile it, count closed Print Assumptions"""
         if not os.path.exists(tp):
-            return k, f'broken: no equivalence file {tp}'
-        txt = open(tp).read()
-        nc = re.sub(r'\(\*.*?\*\)', '', txt, flags=re.S)
-        if common.FORBIDDEN.search(nc):
-            return k, 'broken: forbidden vernacular in ' + tp
-        n_print = len(re.findall(r'^\s*Print Assumptions\s', nc, flags=re.M))
+            return f'broken: no equivalence file {tp}'
+        txt = re.sub(r'\(\*.*?\*\)', '', open(tp).read(), flags=re.S)
+        if common.FORBIDDEN.search(txt):
+            return 'broken: forbidden vernacular in ' + tp
+        n_print = len(re.findall(r'^\s*Print Assumptions\s', txt, flags=re.M))
         dst = os.path.join(work, os.path.basename(tp))
         shutil.copyfile(tp, dst)
         rc, log = _coqc(work, dst)
         if rc != 0:
-            return k, 'broken: t_%s no longer proved equal to the hand model: %s' % (f, _tail(log))
+            return f'broken: {what}: ' + _tail(log)
         n_closed = len(re.findall(r'^Closed under the global context', log, flags=re.M))
         if n_print == 0 or n_closed != n_print or 'Axioms:' in log:
-            return k, 'broken: Print Assumptions not closed: ' + _tail(log)
-        return k, 'ok'
+            return 'broken: Print Assumptions not closed: ' + _tail(log)
+        return 'ok'
+
     with cf.ThreadPoolExecutor(max_workers=max(1, min(common.NPROC, 6))) as ex:
-        for k, st in ex.map(build_eq, keys):
-            out[k] = st
+        pre_fut, eq_fut = {}, {}
+        for k in keys:
+            f = TARGETS[k]['fn']
+            for pre in TARGETS[k].get('pre', []):
+                if pre not in pre_fut and gen_status[f] is None:
+                    pre_fut[pre] = ex.submit(check_file, os.path.join(common.COQ, 'templates', pre + '.v'),
+                                             f't_{f} no longer proved equal to its block reading ({pre})')
+
+        def build_eq(k):
+            f = TARGETS[k]['fn']
+            if gen_status[f] is not None:
+                return gen_status[f]
+            for pre in TARGETS[k].get('pre', []):
+                st = pre_fut[pre].result()
+                if st != 'ok':
+                    return st
+            return check_file(template_path(k), f't_{f} no longer proved equal to the hand model')
+        # files without prerequisites first, so that a waiting job never starves the pool
+        for k in sorted(keys, key=lambda k: len(TARGETS[k].get('pre', []))):
+            eq_fut[k] = ex.submit(build_eq, k)
+        for k in keys:
+            out[k] = eq_fut[k].result()
     return [{'name': f'T-int {k}: {TARGETS[k]["statement"]}', 'status': out[k],
              'assumptions': ['Closed under the global context'] if out[k] == 'ok' else None} for k in keys]
 
